@@ -196,6 +196,14 @@ func c04JwtInterp(t *testing.T, c c04JwtCase) (v kit.Verdict) {
 				fail = msg
 				return
 			}
+			if exp == c04Unspec {
+				// not judged; recorded so that the evidence shows what the code does there
+				if seen.ran == 1 {
+					classes["unspec:"+why+":ran"] = true
+				} else {
+					classes["unspec:"+why+":401"] = true
+				}
+			}
 			if c.Cb && exp == c04Reject && cbCalls != before+1 {
 				fail = fmt.Sprintf("%s: unauthorized callback invoked %d times for a rejected request", what, cbCalls-before)
 				return
